@@ -5,8 +5,9 @@ CONSTANTS
   Items = {0, 1}
   Vals = {0}
   PairItems = {0, 1, 2}
+  LawItems = {0}
   MaxLen = 0
   EMIT = FALSE
-INVARIANTS C05Inv ImplInv
+INVARIANTS C05Inv ImplInv AlsoInv
 PROPERTIES NoResurrection
 CHECK_DEADLOCK FALSE
